@@ -9,7 +9,7 @@ MANIFEST = dict(
    note="The document model covers the part of conversion that goes through the Bag (constraint keywords, patterns) plus registry metadata, Values and Shape identity; structural recursion into member schemas, $defs/ref hoisting and option handling are not modelled and are covered only by the correspondence runs (9 option settings); which schemas a conversion visits (whose Describe/Meta callbacks run) is measured on a scout replica whose checks' exported OnAttach slices are wrapped with recorders. The oracle document is obtained from a replayed isolated twin, which assumes constructors and chaining calls are deterministic. Trusted: Lean kernel, axioms propext/Classical.choice/Quot.sound, the Go harness and comparer.",
    design="DESIGN.md §3.4, §5 C12")
 
-MODULES = ["Gozod.Proofs.C12", "Gozod.Proofs.C12Def", "Gozod.Proofs.C12Access"]
+MODULES = ["Gozod.Proofs.C12", "Gozod.Proofs.C12Def", "Gozod.Proofs.C12Access", "Gozod.Proofs.C12Opts"]
 GEN = C.os.path.join(C.LEAN, "Gozod", "Gen", "ConvAccess.lean")
 THEOREMS = [
     "Gozod.C12.c12_pure", "Gozod.C12.c12_pure_obs", "Gozod.C12.c12_deterministic", "Gozod.C12.c12_twice",
@@ -29,10 +29,19 @@ THEOREMS = [
     "Gozod.C12Access.registry_range_order_sensitive", "Gozod.C12Access.c12_shape_range_sorted",
     "Gozod.C12Access.c12_enum_sort_total", "Gozod.C12Access.c12_applyBag_range_sorted", "Gozod.C12Access.sortedKeys_order_invariant",
     "Gozod.C12Access.legacy_shape_range_sensitive", "Gozod.C12Access.legacy_enum_sort_partial", "Gozod.C12Access.legacy_applyBag_range_sensitive",
+    # the options struct and what the document holds by reference (tables regenerated from jsonschema/to.go)
+    "Gozod.C12Access.c12_options_modelled", "Gozod.C12Access.c12_options_read_only", "Gozod.C12Access.c12_override_handed_live_node",
+    "Gozod.C12Access.c12_doc_stores_partial",
+    # conversion options as parameters of the conversion step (Model/ConvOpts.lean)
+    "Gozod.C12Opts.c12_opts_ext", "Gozod.C12Opts.c12_opts_pure", "Gozod.C12Opts.c12_opts_entries_kept",
+    "Gozod.C12Opts.c12_opts_deterministic", "Gozod.C12Opts.c12_opts_after_others", "Gozod.C12Opts.c12_opts_twice",
+    "Gozod.C12Opts.c12_opts_hist", "Gozod.C12Opts.c12_opts_full_with_clone", "Gozod.C12Opts.c12_opts_partial",
+    "Gozod.C12Opts.override_edits_registry_examples", "Gozod.C12Opts.c12_opts_full_false", "Gozod.C12Opts.ovw_ok",
 ]
 
 OPT_NAMES = ["default", "io-input", "unrepresentable-any", "reused-ref", "draft-07", "cycles-throw",
-             "registry-self", "registry-all", "registry-empty"]
+             "registry-self", "registry-all", "registry-empty", "uri+override-readonly", "override-edits-values", "unknown-strings",
+             "combination+uri", "registry-full-entry", "override-rewrites-in-place", "caller-rewrites-returned-document"]
 
 
 def mask(verdicts, steps):
@@ -40,7 +49,7 @@ def mask(verdicts, steps):
     out = []
     for k, v in enumerate(verdicts.split(";")):
         cls = steps[k][1] if k < len(steps) else "?"
-        out.append(v if cls in ("conv", "parse") else "-")
+        out.append(v if cls in ("conv", "parse", "convreg") else "-")
     return ";".join(out)
 
 
@@ -57,6 +66,21 @@ def key(op, impl, M, S):
         if k >= len(iv) or iv[k] in ("1:", "-"):
             continue
         typ = st[-1].partition("@")[2]
+        if st[1] == "convreg":
+            # ToJSONSchema(registry): `r` = the document differs from the isolated twin family's registry document (the
+            # Registry.Range loop feeds the stateful converter in map order: the region `c12_ranges_partial` excludes,
+            # witness `registry_range_order_sensitive`); a live schema that changed is never in this class
+            if iv[k] == "r:":
+                lazy = lazy or "registry-document-order-dependent"
+                continue
+            return "registry-conversion-changes-live-schema:" + typ
+        if (st[1] == "conv" and st[7].startswith("W") and k < len(mv) and mv[k] == iv[k] and " S:" not in impl
+                and (iv[k].startswith("0") or st[2] in ("14", "15"))):
+            # in-place rewriting of a document (by an Override or by the caller) reaches the registry entry whose example
+            # list the document holds (`applyMeta`: Examples = meta.Examples), exactly as the model derives (changed set,
+            # entries afterwards, later documents): the listed class
+            lazy = lazy or "document-examples-alias-registry-entry"
+            continue
         if st[1] == "conv":
             if iv[k].startswith("n"):
                 # fresh isolated twins of this schema do not agree among themselves: the conversion is not a function of
@@ -103,6 +127,17 @@ def rewrite(data):
         is_, ms = drop_unshown(is_, ms)
         sv, _ = c08.parts(s)
         mv, sv = mask(mv, steps), mask(sv, steps)
+        # ToJSONSchema(registry): the model claims purity, not determinism — `r:` stands for "the document may differ" and is
+        # matched by either outcome; a differing document is reported as `r:` (class registry-document-order-dependent)
+        ivl, mvl = iv.split(";"), mv.split(";")
+        for k, st in enumerate(steps):
+            if st[1] == "convreg" and k < len(ivl) and k < len(mvl) and mvl[k] == "r:":
+                same, _, ch = ivl[k].partition(":")
+                if same == "1":
+                    mvl[k] = "1:"
+                else:
+                    ivl[k] = "r:" + ch
+        iv, mv = ";".join(ivl), ";".join(mvl)
         if is_ == ms:
             impl2.append(iv); model2.append(mv + "\t" + sv)
         else:
@@ -121,14 +156,27 @@ def run(res):
     # calls, write sites with the origin of the memory written, map ranges with their sinks, convertEnum's sort; accessors
     # classified alias/copy behaviourally) and then runs the histories; the proofs over the regenerated tables are built
     # afterwards, under the same lock (table and proof run belong to the same tree). The driver does not import the tables.
+    import time
+    t0 = time.time()
+    timing = {}
     with C.Lock("c12-gen"):
+        timing["wait_own_lock_s"] = round(time.time() - t0, 1)
+        t1 = time.time()
         okd, outd = C.lake_build(["driver_c12"])
+        timing["driver_build_incl_lake_lock_wait_s"] = round(time.time() - t1, 1)
         if not okd:
             C.tie_broken(res, "driver_c12 does not build", outd[-3000:])
             return res.finish()
         C.os.environ["C12_GEN_ALSO"] = GEN
+        t2 = time.time()
         data, err = C.correspond(res, "C12")
+        timing["harness_build_run_and_driver_s"] = round(time.time() - t2, 1)
+        t3 = time.time()
         ok, detail = C.prove(res, MODULES, THEOREMS)
+        timing["proofs_incl_lake_lock_wait_s"] = round(time.time() - t3, 1)
+    if data is not None and isinstance(data[3], dict):
+        timing["harness_run_s"] = data[3].get("harness_s")
+    res.coverage["timing"] = timing
     if not ok:
         # a statement over the regenerated tables that stops checking (a write site whose memory is not the converter's
         # own, an unsorted map range feeding an order-sensitive sink) aims nothing by itself: the histories are the
